@@ -43,6 +43,8 @@ const (
 	taintK  = "dedicated"
 
 	kfAffinityTwoDomains = "self-affinity-bootstrap-leaves-node-undetermined"
+	kfNilSelector        = "required-affinity-with-nil-selector-follows-any-pod"
+	kfSpreadFilter       = "spread-node-filter-drops-compatibility-options"
 )
 
 var allZones = []string{"z1", "z2", "z3"}
@@ -557,6 +559,7 @@ func runScenario(c *kit.Ctx, sc sCase) {
 		reqs, labels := poolReqs(p)
 		np := test.NodePool(v1.NodePool{ObjectMeta: metav1.ObjectMeta{Name: p.Name}, Spec: v1.NodePoolSpec{Weight: lo.ToPtr(p.Weight),
 			Template: v1.NodeClaimTemplate{ObjectMeta: v1.ObjectMeta{Labels: labels}, Spec: v1.NodeClaimTemplateSpec{Requirements: reqs}}}})
+		np.Namespace = ""
 		if p.Tainted {
 			np.Spec.Template.Spec.Taints = []corev1.Taint{{Key: taintK, Value: "true", Effect: corev1.TaintEffectNoSchedule}}
 		}
@@ -566,6 +569,7 @@ func runScenario(c *kit.Ctx, sc sCase) {
 	for _, n := range sc.Nodes {
 		node := test.Node(test.NodeOptions{ObjectMeta: metav1.ObjectMeta{Name: n.Name, Labels: n.Labels}, ProviderID: "fake://" + n.Name,
 			Allocatable: corev1.ResourceList{corev1.ResourceCPU: resource.MustParse("4"), corev1.ResourceMemory: resource.MustParse("16Gi"), corev1.ResourcePods: resource.MustParse("20")}})
+		node.Namespace = "" // cluster-scoped; the in-memory client keys by namespace
 		if n.Tainted {
 			node.Spec.Taints = []corev1.Taint{{Key: taintK, Value: "true", Effect: corev1.TaintEffectNoSchedule}}
 		}
@@ -594,6 +598,11 @@ func runScenario(c *kit.Ctx, sc sCase) {
 	if err != nil {
 		panic(err)
 	}
+	if debugDump {
+		for _, g := range s.VerifC02Groups() {
+			fmt.Fprintf(os.Stderr, "GROUP-BEFORE %+v\n", g)
+		}
+	}
 	sctx, cancel := context.WithTimeout(ctx, time.Minute)
 	results, err := s.Solve(sctx, pods)
 	cancel()
@@ -602,6 +611,26 @@ func runScenario(c *kit.Ctx, sc sCase) {
 	}
 
 	if debugDump {
+		for _, g := range s.VerifC02Groups() {
+			fmt.Fprintf(os.Stderr, "GROUP-AFTER %+v\n", g)
+		}
+		pl := &corev1.PodList{}
+		_ = cl.List(ctx, pl)
+		for _, p := range pl.Items {
+			fmt.Fprintf(os.Stderr, "POD %s/%s node=%q phase=%s uid=%s del=%v\n", p.Namespace, p.Name, p.Spec.NodeName, p.Status.Phase, p.UID, p.DeletionTimestamp)
+		}
+		for _, sp := range sc.Batch {
+			for _, t := range append(append([]sTerm{}, sp.Aff...), sp.Anti...) {
+				pl2 := &corev1.PodList{}
+				err := cl.List(ctx, pl2, provscheduling.TopologyListOptions("ns2", t.Sel.k8s()))
+				fmt.Fprintf(os.Stderr, "LIST ns2 %v -> %d err=%v\n", t.Sel, len(pl2.Items), err)
+			}
+		}
+		nl := &corev1.NodeList{}
+		_ = cl.List(ctx, nl)
+		for _, n := range nl.Items {
+			fmt.Fprintf(os.Stderr, "NODE %s labels=%v taints=%v\n", n.Name, n.Labels, n.Spec.Taints)
+		}
 		for p, e := range results.PodErrors {
 			fmt.Fprintf(os.Stderr, "ERR %s/%s: %v\n", p.Namespace, p.Name, e)
 		}
@@ -727,13 +756,31 @@ func runScenario(c *kit.Ctx, sc sCase) {
 	if undet {
 		c.Count("B:new-node-zone-undetermined")
 	}
+	labelOf := map[string]map[string]string{}
+	for _, n := range sc.Nodes {
+		labelOf[n.Name] = n.Labels
+	}
+	for _, sp := range sc.Batch {
+		if lab, ok := labelOf[sc.Placement[sp.NS+"/"+sp.Name]]; ok {
+			for _, t := range sp.Aff {
+				if _, has := lab[t.Key]; !has && !t.Preferred {
+					c.Count("B:observation:required-affinity-pod-on-node-without-topology-label")
+				}
+			}
+			for _, t := range sp.Spread {
+				if _, has := lab[t.Key]; !has && !t.Anyway {
+					c.Count("B:observation:spread-pod-on-node-without-topology-label")
+				}
+			}
+		}
+	}
 	if len(sc.Failed) > 0 {
 		c.Count("B:some-pods-unschedulable")
 	}
 	if len(sc.Failed) == len(sc.Batch) {
 		c.Count("B:nothing-placed")
 	}
-	sc.KfKey = affinityFindingShape(sc, newDomains)
+	sc.KfKey = findingShape(sc, newDomains)
 	if sc.KfKey != "" {
 		c.Count("B:shape:" + sc.KfKey)
 	}
@@ -756,26 +803,59 @@ func short(k string) string {
 	return k
 }
 
-// affinityFindingShape recognises the input shape of finding F11: pods with a REQUIRED pod-affinity term on a
-// non-hostname key whose selector selects the pod itself, of which at least one was placed on a new node that is
-// still undetermined for that key, while another one sits on a different node.
-func affinityFindingShape(sc sCase, newDomains map[string]map[string][]string) string {
+// findingShape recognises the exact input shapes of the known findings of this property (see the report):
+//   - a REQUIRED pod-affinity term with a nil label selector on a pod that was placed (F12);
+//   - a DoNotSchedule spread constraint honouring node affinity on a pod that restricts a well-known label
+//     (zone) itself, placed on a new node next to another pod its selector selects (F13);
+//   - REQUIRED pod-affinity on a non-hostname key whose selector selects the pod itself, with two such pods
+//     on different new nodes that do not share one determined domain (F11).
+func findingShape(sc sCase, newDomains map[string]map[string][]string) string {
+	placedNode := func(p sPod) (string, bool) { n, ok := sc.Placement[p.NS+"/"+p.Name]; return n, ok }
+	for _, sp := range sc.Batch {
+		if _, ok := placedNode(sp); !ok {
+			continue
+		}
+		for _, t := range sp.Aff {
+			if !t.Preferred && t.Sel.Nil {
+				return kfNilSelector
+			}
+		}
+	}
+	for _, sp := range sc.Batch {
+		myNode, ok := placedNode(sp)
+		if !ok || !strings.HasPrefix(myNode, "new-") {
+			continue
+		}
+		restricts := sp.NodeSel[zoneKey] != "" || len(sp.ZoneIn) > 0 || len(sp.ZoneNotIn) > 0
+		for _, c := range sp.Spread {
+			if c.Anyway || !restricts || (c.AffHonor != nil && !*c.AffHonor) {
+				continue
+			}
+			for _, other := range sc.Batch {
+				on, ok := placedNode(other)
+				if ok && on == myNode && other.Name != sp.Name && other.NS == sp.NS && selMatches(c.Sel, other.Labels) {
+					return kfSpreadFilter
+				}
+			}
+		}
+	}
 	for _, sp := range sc.Batch {
 		for _, t := range sp.Aff {
 			if t.Preferred || t.Key == hostKey || !selMatches(t.Sel, sp.Labels) {
 				continue
 			}
-			myNode, ok := sc.Placement[sp.NS+"/"+sp.Name]
-			if !ok {
+			myNode, ok := placedNode(sp)
+			if !ok || !strings.HasPrefix(myNode, "new-") {
 				continue
 			}
-			lab, isNew := newDomains[myNode]
-			if !isNew || len(lab[t.Key]) < 2 {
-				continue
-			}
+			mine := newDomains[myNode][t.Key]
 			for _, other := range sc.Batch {
-				on, ok := sc.Placement[other.NS+"/"+other.Name]
-				if ok && on != myNode && selMatches(t.Sel, other.Labels) && strings.HasPrefix(on, "new-") {
+				on, ok := placedNode(other)
+				if !ok || on == myNode || !strings.HasPrefix(on, "new-") || !selMatches(t.Sel, other.Labels) {
+					continue
+				}
+				theirs := newDomains[on][t.Key]
+				if !(len(mine) == 1 && len(theirs) == 1 && mine[0] == theirs[0]) {
 					return kfAffinityTwoDomains
 				}
 			}
